@@ -50,9 +50,10 @@ impl Index for str {
         }
         match *v {
             Item::Table(ref mut t) => Some(t.entry(self).or_insert(Item::None)),
-            Item::Value(ref mut v) => v
-                .as_inline_table_mut()
-                .map(|t| t.items.entry(Key::new(self)).or_insert_with(|| Item::None)),
+            Item::Value(ref mut v) => v.as_inline_table_mut().map(|t| {
+                t.remove_placeholder(self);
+                t.items.entry(Key::new(self)).or_insert_with(|| Item::None)
+            }),
             _ => None,
         }
     }
